@@ -13,7 +13,7 @@ pub fn prop() -> Prop {
         rule: "all streams of <=3 (thorough <=4) values over a 40-text universe (strings spelled like literals, keys that are prefixes of one another, the empty key, empty collections inside a collection; (incl. whole numbers >= 2^32 spelled with and without exponent / fraction, and two objects whose printed forms coincide under the \\u+5-hex-digit spelling of non-BMP characters) (incl. unequal nested objects that differ only in where a trailing member sits: {\"a\":{},\"b\":1} / {\"a\":{\"b\":1}}) with equal-by-value spellings (0 0.0 0e0, [0,\"x\"] [0.0,\"x\"], 1 1.0 1e0 10e-1, \"a\" \"\\u0061\", 1.5 15e-1, 100 1e2, [1,{\"a\":1}] [1.0,{\"a\":1e0}], {\"a\":1} {\"a\":1.0}) and near misses (\"1\", [1], [1.5], null, true), and <=5 (thorough <=7) over an 8-text core; the same through one and two selections (also two selections sharing a name) over all streams of <=4 (thorough <=6) records where the selected member is present, null or absent; growth families of 3..1000 distinct values each arriving in three spellings; non-trivial = the stream holds a duplicate under `=` in a different spelling, or an absent-versus-null pair; distinct by construction",
         explanation: "the `=` table of the implementation is obtained exhaustively for the universe (one run per ordered pair) and checked against reference equality, symmetry and reflexivity; the output with --unique must be the output without it minus every row equal (under that table, selection by selection, absent only equal to absent) to an earlier row",
         assumptions: COMMON_ASSUMPTIONS.to_vec(),
-        guards: vec!["duplicate-in-other-spelling-removed", "near-miss-kept", "absent-vs-null-kept", "nested-duplicate-removed", "table-growth", "eq-table-complete"],
+        guards: vec!["command-line-respelled", "duplicate-in-other-spelling-removed", "near-miss-kept", "absent-vs-null-kept", "nested-duplicate-removed", "table-growth", "eq-table-complete"],
         budget_s: (100, 2400),
         single_worker: false,
         run,
@@ -146,6 +146,7 @@ fn check_stream(ctx: &mut Ctx, uni: &Universe, sel: &Sel, texts: &[&str], sig_ex
     let uniq_case = Case::owned(uniq_args, input.into_bytes());
     let plain = ctx.run(&plain_case);
     let uniq = ctx.run(&uniq_case);
+    super::pipe::check_respelled(ctx, &uniq_case, &uniq, sel.name);
     ctx.case_done();
     ctx.trace_validated();
     let sig = format!("{} {sig_extra}", sel.name);
